@@ -64,7 +64,7 @@ def common(V, out, st, fn):
 
 
 @unit('C13', 'determine_peaks_only_delta_series', functions=[PK + 'determine_peaks_only_delta_series', PK + 'determine_peak_only_delta_series_4_cleaned_data'],
-      cases=CASES, modes=('bounded',), sizes=dict(n=[2, 3, 4]), thorough_sizes=dict(n=[2, 3, 4, 5, 6]))
+      cases=CASES, modes=('bounded',), sizes=dict(n=[2, 3, 4]), thorough_sizes=dict(n=[2, 3, 4, 5]))
 def delta_series(V, dtype, container):
     st = {}
     for out in V.run(PK + 'determine_peaks_only_delta_series', _setup(V, st, dtype, container)):
@@ -81,7 +81,7 @@ def delta_series(V, dtype, container):
 
 
 @unit('C13', 'determine_pseudo_cyclic_peak_only_series', functions=[PK + 'determine_pseudo_cyclic_peak_only_series', PK + '_determine_peak_only_series_4_cleaned_data'],
-      cases=CASES, modes=('bounded',), sizes=dict(n=[2, 3, 4]), thorough_sizes=dict(n=[2, 3, 4, 5, 6]))
+      cases=CASES, modes=('bounded',), sizes=dict(n=[2, 3, 4]), thorough_sizes=dict(n=[2, 3, 4, 5]))
 def pseudo_cyclic(V, dtype, container):
     st = {}
     for out in V.run(PK + 'determine_pseudo_cyclic_peak_only_series', _setup(V, st, dtype, container)):
@@ -210,7 +210,7 @@ def _peak_power_sums(V, x, n, b, ncyc):
 
 
 @unit('C13', 'calc_cyc_amp_array_w_power_law', functions=[IM + 'calc_cyc_amp_array_w_power_law'], cases=[dict(dtype='float'), dict(dtype='int')],
-      modes=('bounded',), sizes=dict(n=[2, 3]), thorough_sizes=dict(n=[2, 3, 4, 5]), budget_ms=20000)
+      modes=('bounded',), sizes=dict(n=[2, 3]), thorough_sizes=dict(n=[2, 3, 4]), budget_ms=20000)
 def cyc_amp(V, dtype):
     """equivalent uniform amplitude: length, defining formula (sum over the half-cycle peaks), non-decreasing"""
     st = {}
